@@ -50,15 +50,32 @@ class Module:
         self.imports = {}     # local name -> ("module", dotted) | ("from", module, name)
         self._index(self.tree.body, prefix="", cls=None)
 
+    def _index_closures(self, fn, path):
+        """closures defined anywhere inside fn (directly or inside its compound statements, and closures of closures):
+        addressable as outer.inner[.inner2]; the first definition of a name wins (as for a reader of the text)"""
+        def walk(stmts):
+            for sub in stmts:
+                if isinstance(sub, ast.FunctionDef):
+                    name = path + "." + sub.name
+                    if name not in self.funcs:
+                        self.funcs[name] = FuncInfo(self, name, sub, None)
+                        self._index_closures(sub, name)
+                elif isinstance(sub, (ast.ClassDef, ast.AsyncFunctionDef)):
+                    continue
+                else:
+                    for fld in ("body", "orelse", "finalbody"):
+                        walk(getattr(sub, fld, []) or [])
+                    for h in getattr(sub, "handlers", []) or []:
+                        walk(h.body)
+        walk(fn.body)
+
     def _index(self, body, prefix, cls):
         for st in body:
             if isinstance(st, (ast.FunctionDef,)):
                 self.funcs[prefix + st.name] = FuncInfo(self, prefix + st.name, st, cls)
                 # closures defined directly in the body: addressable as outer.inner (their free variables are declared
                 # by the contract like module globals: symbolic, fixed for the duration of the call)
-                for sub in st.body:
-                    if isinstance(sub, ast.FunctionDef):
-                        self.funcs[prefix + st.name + "." + sub.name] = FuncInfo(self, prefix + st.name + "." + sub.name, sub, None)
+                self._index_closures(st, prefix + st.name)
             elif isinstance(st, ast.ClassDef):
                 self.classes[prefix + st.name] = st
                 self._index(st.body, prefix + st.name + ".", st.name)
